@@ -39,6 +39,7 @@ pub const ALT_ELISP: &[&str] = &[
     "?λ", "?😀", "? ", "?#", "?'", "?.", "?\\.", "?\\'", "?\\#", "?\\,", "?\\`", "?\\|",
     "\"\"", "\"a\"", "\"\\\"\\\\\"", "\"\\a\\b\\t\\n\\v\\f\\r\\e\\s\\d\"", "\"\\^a\\^Z\"", "\"\\101\"", "\"\\101\\102\"", "\"\\0\"", "\"\\377\"", "\"\\x41\"", "\"\\x41\\ \"", "\"\\xff\"",
     "\"\\x3bb\"", "\"\\u03bb\"", "\"\\U0001F600\"", "\"\\N{U+3bb}\"", "\"a\\ b\"", "\"\\101λ\"", "\"λ\"", "\"\\u0041\\101\"", "\"a\\qb\"", "\"\\\n\"", "\"\\400\"", "\"\\x100\"",
+    "\"\\377\x7f\"", "\"\x7f\\377\"", "\"\\377a\"", "\"a\\377\"", "\"\\377 \"", "\"\\101\x7f\"", "\"é\\x21\"", "\"\\x21é\"", "\"\\377\\u00e9\"", "\"\\x21\u{80}\"", "\"\u{80}\\x21\"", "\"\\x21\\x7f\"",
     "1abc", "1+", "1-", "1/2", "12ab", "0x10", "1.5.6", "1e3", "1e", "1.", "123", "-5", "1.5", "2020-01-01", "9a9", "(1+ x)", "[1- 2]", "550e8400-e29b-41d4-a716-446655440000",
     "(a . b)", "'a", "`(a ,b)", "#u8(1 2)", "#t", "#f", "#nil", "#\\a", "(defun f (x) \"doc\" (+ x 1))", "[?a ?b]", "(:k . v)", "[nil t]",
 ];
